@@ -182,9 +182,14 @@ package invocation
 //@ // ---- C10: well-formedness ------------------------------------------------------------------------
 //@ pure func wfInv(t *Token) bool = didDefined(t.issuer) && didDefined(t.subject) && len(t.nonce) >= 12
 //@
+//@ // ---- C07: what an invocation must satisfy to survive seal -> unseal (see delegation)
+//@ pure func secOKi(p *time.Time) bool = p == nil || (-9007199254740991 <= unixOf(*p) && unixOf(*p) <= 9007199254740991)
+//@ pure func sealablei(t *Token) bool = validCmd(string(t.command)) && secOKi(t.expiration) && secOKi(t.invokedAt)
 //@ func (*Token).validate
 //@   requires t != nil
-//@   ensures [C10] wf: (result == nil) == wfInv(t)
+//@   ensures [C10] wf: result == nil ==> wfInv(t)
+//@   ensures [C07] sealable: result == nil ==> sealablei(t)
+//@   ensures [C10,C07] complete: wfInv(t) && sealablei(t) ==> result == nil
 //@   assigns [C20] nothing
 //@
 //@ func tokenFromModel
@@ -196,10 +201,15 @@ package invocation
 //@   ensures [C10] times: result1 == nil ==> inSafeRange(m.Exp) && inSafeRange(m.Iat)
 //@   ensures [C10] argints: result1 == nil ==> argsInBounds(m.Args)
 //@   ensures [C10] fields: result1 == nil ==> hasPrefix(m.Iss, "did:key:") && hasPrefix(m.Sub, "did:key:") && result0.nonce == m.Nonce && result0.proof == m.Prf
+//@   // C07: every field of the decoded invocation is the corresponding field of the model, read back
+//@   ensures [C07] principals: result1 == nil ==> result0.issuer == parsedDID(m.Iss) && result0.subject == parsedDID(m.Sub) && (m.Aud == nil ? result0.audience == did.Undef : result0.audience == parsedDID(*m.Aud))
+//@   ensures [C07] rest: result1 == nil ==> string(result0.command) == m.Cmd && result0.nonce == m.Nonce && result0.arguments == m.Args && result0.proof == m.Prf && result0.cause == m.Cause && (m.Meta != nil ==> result0.meta == m.Meta)
+//@   ensures [C07] times: result1 == nil ==> (m.Exp == nil ? result0.expiration == nil : (result0.expiration != nil && inst(*result0.expiration) == *m.Exp * 1000000000)) && (m.Iat == nil ? result0.invokedAt == nil : (result0.invokedAt != nil && inst(*result0.invokedAt) == *m.Iat * 1000000000))
 //@
 //@ func New
 //@   requires forall i int :: 0 <= i && i < len(opts) ==> opts[i] != nil
 //@   ensures [C10] wellformed: result1 == nil ==> result0 != nil && wfInv(result0)
+//@   ensures [C07] sealable: result1 == nil ==> sealablei(result0)
 //@   loop 0: invariant 0 <= k && k <= len(opts)
 //@           decreases len(opts) - k
 //@
@@ -244,10 +254,15 @@ package invocation
 //@ // sealedNode names the envelope node toIPLD builds for (token, key); toIPLD itself is trusted here
 //@ ghost func sealedNodei(t *Token, k crypto.PrivKey) datamodel.Node
 //@ func (*Token).toIPLD
-//@   trusted
-//@   requires t != nil
-//@   ensures result1 == nil ==> result0 != nil && result0 == sealedNodei(t, privKey)
-//@   assigns nothing
+//@   requires t != nil && privKey != nil && t.meta != nil && wfDID(t.issuer)
+//@   assumes result1 == nil ==> result0 == sealedNodei(t, privKey)
+//@   ensures result1 == nil ==> result0 != nil
+//@   ensures [C07] model: result1 == nil ==> sealedModel(result0) is *tokenPayloadModel && sealedModel(result0).(*tokenPayloadModel) != nil && modelOfi(sealedModel(result0).(*tokenPayloadModel), t)
+//@ pure func modelOfi(m *tokenPayloadModel, t *Token) bool =
+//@     m.Iss == strOf(t.issuer) && m.Sub == strOf(t.subject) && (t.audience == did.Undef ? m.Aud == nil : (m.Aud != nil && *m.Aud == strOf(t.audience)))
+//@  && m.Cmd == string(t.command) && m.Nonce == t.nonce && m.Args == t.arguments && m.Prf == t.proof && m.Cause == t.cause && (len(t.meta.Keys) == 0 ? m.Meta == nil : m.Meta == t.meta)
+//@  && (t.expiration == nil ? m.Exp == nil : (m.Exp != nil && *m.Exp == unixOf(*t.expiration)))
+//@  && (t.invokedAt == nil ? m.Iat == nil : (m.Iat != nil && *m.Iat == unixOf(*t.invokedAt)))
 //@ func (*Token).Encode
 //@   requires t != nil
 //@   ensures [C08,C18] bytes: result1 == nil ==> bytes(result0) == encodeWith(encFn, sealedNodei(t, privKey))
